@@ -242,7 +242,22 @@ func VH_C08_ake() {
 	c.ake.ourPublicValue = vhPub(exp)
 	copy(c.ake.r[:], rkey)
 	c.ake.encryptedGx = vBytes("egx", 12)
-	switch vChoose("step", 4) {
+	switch vChoose("step", 5) {
+	case 4: // abandoned late: we have sent the Reveal-Signature (AWAITING_SIG; our DH
+		// key pair is already staged in ake.keys) and the peer starts over with a
+		// new, well-formed DH-Commit
+		c.ake.state = authStateAwaitingSig{}
+		c.ake.theirPublicValue = vhPub(vhPriv(1, 1))
+		c.ake.keys.ourKeyID = 1
+		c.ake.keys.setOurCurrentDHKeys(c.ake.secretExponent, c.ake.ourPublicValue)
+		staged := c.ake.keys.ourCurrentDHKeys.priv // the library's own second copy
+		vAssume(len(staged) == 40)
+		body := AppendData(AppendData(nil, vBytes("theiregx", 8)), vBytes("theirhash", 32))
+		_, err := c.processAKE(msgTypeDHCommit, body)
+		vAssume(err == nil)
+		vAssert("O2-late-abandoned-exponent-zeroed", vhIsZero(exp))
+		vAssert("O2-late-abandoned-staged-key-zeroed", vhIsZero(staged))
+		vAssert("O1-late-abandoned-exponent-unreachable", !vHeapMentions(c, val))
 	case 3: // abandoned: the peer's DH-Commit wins the commit collision
 		c.ake.state = authStateAwaitingDHKey{}
 		// the peer's commitment hash is the largest possible one, so ours is the lower
@@ -283,5 +298,108 @@ func VH_C08_ake() {
 		vAssert("completed-encrypted", c.msgState == encrypted)
 		vAssert("O3-only-two-dh-keys", vAll(c.keys.ourKeyID == 2, len(c.keys.ourCurrentDHKeys.priv) == 40, len(c.keys.ourPreviousDHKeys.priv) == 40))
 	}
+	vReach("end")
+}
+
+// vhReinstall: the two conversations start a new session at ratchet position
+// r (what a completed key exchange leaves behind, see VH_C01_pair / VH_C08_ake).
+func vhReinstall(a, b *vhParty, r vhRatchet) {
+	for _, p := range []*vhParty{a, b} {
+		p.c.msgState = encrypted
+		p.c.keys = keyManagementContext{}
+		p.rnd.next = nil
+	}
+	vhInstallKeys(a, r.oA, r.tA, 1)
+	vhInstallKeys(b, r.oB, r.tB, 0)
+}
+
+// H-C18-queue: texts queued under REQUIRE_ENCRYPTION go out exactly once, in
+// order and unmarked when the next session starts - whatever happened before
+// (an earlier session in which a text was sent, ended by us or by the peer; an
+// OTR error message received while not encrypted; a stray key-exchange message
+// that is ignored or refused while we wait).
+//
+// vh: prop=C18 expect=end unwind=700 timeout=60000
+func VH_C18_queue() {
+	vhUseSmallGroup()
+	r := vhSymRatchetLite()
+	a, b := vhEncryptedPair(true, r)
+	vhFixOrder(a, b)
+	vhNoHeartbeat(a, b)
+	vhQuickOrder()
+	a.c.Policies.add(requireEncryption)
+	x := vBytes("x", 1)
+	vhNoNUL(x)
+	switch vChoose("before", 4) {
+	case 0: // no earlier session at all
+		a.c.msgState, b.c.msgState = plainText, plainText
+	case 1: // earlier session, nothing sent, we end it
+		_, e := a.c.End()
+		vAssume(e == nil)
+	case 2: // earlier session, a text was sent, we end it
+		_, e0 := a.c.Send(x)
+		_, e := a.c.End()
+		vAssume(vAll(e0 == nil, e == nil))
+	case 3: // earlier session, a text was sent, the peer ends it, then we do
+		_, e0 := a.c.Send(x)
+		bye, e1 := b.c.End()
+		vAssume(vAll(e0 == nil, e1 == nil, len(bye) == 1))
+		_, _, e2 := a.c.Receive(bye[0])
+		_, e3 := a.c.End()
+		vAssume(vAll(e2 == nil, e3 == nil))
+	}
+	vAssume(a.c.msgState == plainText)
+	errAt := vChoose("error", 3) // 0: none, 1: before the texts are queued, 2: after
+	if errAt == 1 {
+		_, _, e := a.c.Receive([]byte("?OTR Error: you said something I could not read"))
+		vAssume(e == nil)
+	}
+	y := vBytes("y", 1)
+	z := vBytes("z", 1)
+	vhNoNUL(y)
+	vhNoNUL(z)
+	o1, e1 := a.c.Send(y)
+	o2, e2 := a.c.Send(z)
+	vAssert("queued-not-sent", vAll(e1 == nil, e2 == nil, len(o1) == 1, len(o2) == 1))
+	if len(o1) == 1 && len(o2) == 1 {
+		vAssert("query-instead-of-text", vAll(len(o1[0]) >= 5, len(o2[0]) >= 5, string(o1[0][:5]) == "?OTRv", string(o2[0][:5]) == "?OTRv"))
+	}
+	if errAt == 2 {
+		_, ts, e := a.c.Receive([]byte("?OTR Error: you said something I could not read"))
+		vAssume(vAll(e == nil, len(ts) == 0))
+	}
+	// while we wait, a stray key-exchange message arrives and is ignored or refused
+	switch vChoose("stray", 3) {
+	case 1:
+		a.c.processAKE(msgTypeSig, vBytes("junk", 6))
+	case 2:
+		a.c.processAKE(msgTypeRevealSig, vBytes("junk", 6))
+	}
+	vAssert("still-waiting", a.c.msgState == plainText)
+	nSent0 := 0
+	for _, e := range a.ev.msg {
+		if e == MessageEventMessageSent {
+			nSent0++
+		}
+	}
+	// the key exchange completes
+	vhReinstall(a, b, r)
+	out, e4 := a.c.maybeRetransmit()
+	vObserve("queue", len(out), e4 == nil)
+	vAssert("both-queued-texts-go-out", vAll(e4 == nil, len(out) == 2))
+	if len(out) == 2 {
+		p1, _, d1 := b.c.receiveDecoded(out[0])
+		p2, _, d2 := b.c.receiveDecoded(out[1])
+		vAssert("in-order-unmarked", vAll(d1 == nil, d2 == nil, len(p1) == 1, len(p2) == 1, vBytesEq(p1, y), vBytesEq(p2, z)))
+	}
+	nSent := 0
+	for _, e := range a.ev.msg {
+		if e == MessageEventMessageSent {
+			nSent++
+		}
+	}
+	vAssert("sent-events", vAll(nSent-nSent0 == 2, !a.ev.hasMsg(MessageEventMessageResent)))
+	out2, _ := a.c.maybeRetransmit()
+	vAssert("nothing-goes-out-twice", len(out2) == 0)
 	vReach("end")
 }
